@@ -74,6 +74,19 @@
     whole parse loop and the recursive core, in any block: exactly ONE `on_using_alias` with the
     alias name, the type the abstract declarator denotes, the access level in force and the doc
     text found before it.
+  * `C01_toplevel_enum` (`Theorems/EnumDecl.lean`, `EnumList.lean`, `TopLevel.lean`): `enum [class|struct] N { e1 [= v1] , … } ;`
+    through the whole parse loop and the recursive core, in any block, for lists of any length
+    with any comments / doc blocks between the items: exactly ONE `on_enum` with the written key
+    and qualified name and one enumerator per item, in order, with the written names and exactly
+    the written value tokens.
+  * `C01_toplevel_function` (`Theorems/FnDecl.lean`, `TopLevel.lean`): `T ptr-ops f ( ) ;` at namespace scope through the
+    whole parse loop and the recursive core: exactly ONE `on_function` with the name, the return
+    type the declarator prefix denotes, an empty parameter list, no specifiers and no body.
+  * `C01_toplevel_function_params` (`Theorems/ParamForm.lean`, `FnDecl.lean`, `TopLevel.lean`): `T ptr-ops f ( p1 , … , pn ) ;`
+    at namespace scope, every `pi` a plain parameter `Ti ptr-ops name`, ANY number of them, through
+    the whole parse loop and three levels of the recursive core (`_parse_parameters` →
+    `_parse_parameter` → `_parse_type` / `_parse_cv_ptr_or_fn`): exactly ONE `on_function` with one
+    parameter per item, in order, each with its own name and the type ITS declarator denotes.
 -/
 import CxxModel.Tables
 import CxxModel.Props.C04
@@ -450,6 +463,108 @@ theorem C01_toplevel_using_alias (env : Env) (hc : env.cfg = genLexCfg) (F D : N
       w7.delivered = w.delivered + 1 ∧ w7.anon = w.anon ∧ w7.muted = false ∧ w7.nextId = w.nextId :=
   toplevel_using_alias env (by rw [hc]; exact gen_rules_progress) F D w kw a eq first pairs ops semi d1 bk ba bq b1 b0 bmid b' blk rest hstack hmu hfa
     htkw hkw hta ha hte heq htf hf hfv hall hy0 hops hy hap hsemi hs hF
+
+end
+
+section
+open P
+
+theorem C01_toplevel_enum (env : Env) (hc : env.cfg = genLexCfg) (F D : Nat) (w : World)
+    (kw : Tok) (cs : Option Tok) (first : Tok) (pairs : List (Tok × Tok)) (ob : Tok) (pre : List EItem) (last : EItem) (semi : Tok)
+    (bk b0 b1 bmid bl bEnd : Buf)
+    (blk : Block) (rest : List Block) (hstack : w.stack = blk :: rest)
+    (hacc : blk.hdr.kind = .cls → ∃ a, blk.access = some a)
+    (hmu : w.muted = false) (hfa : ¬ env.faultAt = some w.delivered)
+    (htkw : tokenEofOk env.cfg w.buf = .ok (some kw, bk)) (hkw : kw.value = "enum") (hkwt : kw.type = "enum")
+    (hcs : match cs with
+      | none => b0 = bk
+      | some c => tokenEofOk env.cfg bk = .ok (some c, b0) ∧ (c.type = "class" ∨ c.type = "struct"))
+    (hcsv : ∀ c, cs = some c → c.value = c.type)
+    (htf : tokenEofOk env.cfg b0 = .ok (some first, b1)) (hf : first.type = "NAME") (hfv : plainVal first.value = true)
+    (hall : ∀ p ∈ pairs, p.1.type = "DBL_COLON" ∧ p.2.type = "NAME" ∧ plainVal p.2.value = true)
+    (hy : Yields env.cfg b1 (pairs.flatMap (fun p => [p.1, p.2])) bmid)
+    (htob : tokenEofOk env.cfg bmid = .ok (some ob, bl)) (hob : ob.type = "{")
+    (hpre : ∀ i ∈ pre, i.OK ∧ i.sep.type = "," ∧ i.toks.length + 2 ≤ F)
+    (hlast : last.OK ∧ last.sep.type = "}" ∧ last.toks.length + 2 ≤ F)
+    (hyl : Yields env.cfg bl ((pre ++ [last]).flatMap EItem.toks ++ [semi]) bEnd) (hs : semi.type = ";")
+    (hF : pairs.length + 2 ≤ F) (hF2 : pre.length + 1 ≤ F) :
+    ∃ (d : Option String) (bD : Buf) (w7 : World) (ct : CTok) (vs : List Enumerator) (ev : Event),
+      getDoxygen env.cfg env.mcRe w.buf = .ok (d, bD) ∧
+      interp env (mainBody F (core F (D + 1 + 1)) none) w = (w7, .ok (.inl none)) ∧
+      vs.map Enumerator.nv = (pre ++ [last]).map EItem.nv ∧
+      SigEq bEnd w7.buf ∧ w7.stack = { blk with loc := .tok ct.sidx } :: rest ∧
+      w7.events = w.events ++ [ev] ∧ ev.kind = .item (.enum (plainEnum cs first pairs vs blk d)) ∧
+      ev.stateId = blk.id ∧ ev.parentId = rest.head?.map (·.id) ∧
+      w7.delivered = w.delivered + 1 ∧ w7.anon = w.anon ∧ w7.muted = false ∧ w7.nextId = w.nextId :=
+  toplevel_enum env (by rw [hc]; exact gen_rules_progress) F D w kw cs first pairs ob pre last semi bk b0 b1 bmid bl bEnd blk rest hstack hacc hmu hfa
+    htkw hkw hkwt hcs hcsv htf hf hfv hall hy htob hob hpre hlast hyl hs hF hF2
+
+end
+
+section
+open P
+
+theorem C01_toplevel_function (env : Env) (hc : env.cfg = genLexCfg) (F D : Nat) (w : World)
+    (first : Tok) (pairs : List (Tok × Tok)) (ops : List Tok) (x op cp semi : Tok) (d1 : DType) (b1 b0 bmid bx bo bc b' : Buf)
+    (blk : Block) (rest : List Block) (hstack : w.stack = blk :: rest) (hk : blk.hdr.kind ≠ .cls)
+    (hmu : w.muted = false) (hfa : ¬ env.faultAt = some w.delivered)
+    (htok : tokenEofOk env.cfg w.buf = .ok (some first, b1))
+    (hty : first.type = "NAME") (htv : identVal first.value = true)
+    (hall : ∀ p ∈ pairs, p.1.type = "DBL_COLON" ∧ p.2.type = "NAME" ∧ plainVal p.2.value = true)
+    (hy0 : Yields env.cfg b1 (pairs.flatMap (fun p => [p.1, p.2])) b0)
+    (hops : opsHeadOk ops = true) (hopsv : ∀ o ∈ ops, o.value ≠ "auto")
+    (hy : Yields env.cfg b0 ops bmid)
+    (ha : applyPtrOps (.type (.mk (.name first.value none :: pairs.map (fun p => .name p.2.value none)) none false) false false)
+      (ops.map (·.type)) = some d1)
+    (htx : tokenEofOk env.cfg bmid = .ok (some x, bx)) (hx : x.type = "NAME") (hxv : identVal x.value = true)
+    (hto : tokenEofOk env.cfg bx = .ok (some op, bo)) (hop : op.type = "(")
+    (htc : tokenEofOk env.cfg bo = .ok (some cp, bc)) (hcp : cp.type = ")")
+    (hsemi : tokenEofOk env.cfg bc = .ok (some semi, b')) (hs : semi.type = ";")
+    (hF : pairs.length + ops.length + 2 ≤ F) :
+    ∃ (d : Option String) (bD : Buf) (w7 : World) (ct : CTok) (ev : Event),
+      getDoxygen env.cfg env.mcRe w.buf = .ok (d, bD) ∧
+      interp env (mainBody F (core F (D + 1 + 1)) none) w = (w7, .ok (.inl none)) ∧
+      w7.buf = b' ∧ ct.value = first.value ∧ w7.stack = { blk with loc := .tok ct.sidx } :: rest ∧
+      w7.events = w.events ++ [ev] ∧ ev.kind = .item (.function (plainFunction x d1 d)) ∧
+      ev.stateId = blk.id ∧ ev.parentId = rest.head?.map (·.id) ∧
+      w7.delivered = w.delivered + 1 ∧ w7.anon = w.anon ∧ w7.muted = false ∧ w7.nextId = w.nextId :=
+  toplevel_function env (by rw [hc]; exact gen_rules_progress) F D w first pairs ops x op cp semi d1 b1 b0 bmid bx bo bc b' blk rest hstack hk hmu hfa
+    htok hty htv hall hy0 hops hopsv hy ha htx hx hxv hto hop htc hcp hsemi hs hF
+
+end
+
+section
+open P
+
+theorem C01_toplevel_function_params (env : Env) (hc : env.cfg = genLexCfg) (F D : Nat) (w : World)
+    (first : Tok) (pairs : List (Tok × Tok)) (ops : List Tok) (x op : Tok) (ps : List (PItem × DType × Tok)) (last : PItem × DType) (cp semi : Tok) (d1 : DType) (b1 b0 bmid bx bo bc b' : Buf)
+    (blk : Block) (rest : List Block) (hstack : w.stack = blk :: rest) (hk : blk.hdr.kind ≠ .cls)
+    (hmu : w.muted = false) (hfa : ¬ env.faultAt = some w.delivered)
+    (htok : tokenEofOk env.cfg w.buf = .ok (some first, b1))
+    (hty : first.type = "NAME") (htv : identVal first.value = true)
+    (hall : ∀ p ∈ pairs, p.1.type = "DBL_COLON" ∧ p.2.type = "NAME" ∧ plainVal p.2.value = true)
+    (hy0 : Yields env.cfg b1 (pairs.flatMap (fun p => [p.1, p.2])) b0)
+    (hops : opsHeadOk ops = true) (hopsv : ∀ o ∈ ops, o.value ≠ "auto")
+    (hy : Yields env.cfg b0 ops bmid)
+    (ha : applyPtrOps (.type (.mk (.name first.value none :: pairs.map (fun p => .name p.2.value none)) none false) false false)
+      (ops.map (·.type)) = some d1)
+    (htx : tokenEofOk env.cfg bmid = .ok (some x, bx)) (hx : x.type = "NAME") (hxv : identVal x.value = true)
+    (hto : tokenEofOk env.cfg bx = .ok (some op, bo)) (hop : op.type = "(")
+    (hallp : ∀ q ∈ ps, q.1.OK q.2.1 ∧ q.2.2.type = "," ∧ q.2.2.value ≠ ")" ∧ q.1.pairs.length + q.1.ops.length + 2 ≤ F)
+    (hlastp : last.1.OK last.2) (hlF : last.1.pairs.length + last.1.ops.length + 2 ≤ F) (hcp : cp.type = ")") (hcpv : cp.value = ")")
+    (hyp : Yields env.cfg bo (ps.flatMap (fun q => q.1.toks ++ [q.2.2]) ++ (last.1.toks ++ [cp])) bc) (hFp : ps.length + 1 ≤ F)
+    (hsemi : tokenEofOk env.cfg bc = .ok (some semi, b')) (hs : semi.type = ";")
+    (hF : pairs.length + ops.length + 2 ≤ F) :
+    ∃ (d : Option String) (bD : Buf) (w7 : World) (ct : CTok) (ev : Event),
+      getDoxygen env.cfg env.mcRe w.buf = .ok (d, bD) ∧
+      interp env (mainBody F (core F (D + 1 + 1 + 1 + 1)) none) w = (w7, .ok (.inl none)) ∧
+      w7.buf = b' ∧ ct.value = first.value ∧ w7.stack = { blk with loc := .tok ct.sidx } :: rest ∧
+      w7.events = w.events ++ [ev] ∧ ev.kind = .item (.function { plainFunction x d1 d with
+        parameters := ps.map (fun q => q.1.param q.2.1) ++ [last.1.param last.2] }) ∧
+      ev.stateId = blk.id ∧ ev.parentId = rest.head?.map (·.id) ∧
+      w7.delivered = w.delivered + 1 ∧ w7.anon = w.anon ∧ w7.muted = false ∧ w7.nextId = w.nextId :=
+  toplevel_function_params env (by rw [hc]; exact gen_rules_progress) F D w first pairs ops x op ps last cp semi d1 b1 b0 bmid bx bo bc b' blk rest hstack hk hmu hfa
+    htok hty htv hall hy0 hops hopsv hy ha htx hx hxv hto hop hallp hlastp hlF hcp hcpv hyp hFp hsemi hs hF
 
 end
 
